@@ -144,3 +144,10 @@ for _w in ("manifest", "list"):
 
 from contracts import helpers as _HLP  # noqa: E402
 _HLP.register_under("C14", ["HELPER/verify_checksum", "HELPER/_get_current_schema", "HELPER/metadata-file-io"])
+
+# what the read path trusts about the writers: entries carry every field the schema knows (a key outside the schema is silently
+# dropped by fastavro - e.g. the checksum - and verification would silently turn off)
+from contracts import commitpath as _cpw  # noqa: E402
+register(Unit(P, "CODEC-KEYS/create_manifest_file-entries", _cpw.h_manifest_entries, functions=["file_manager:FileManager.create_manifest_file"], replay=_replay_fallback))
+register(Unit(P, "CODEC-KEYS/read_manifest_file-entries", _cpw.h_manifest_read_entries, functions=["file_manager:FileManager.read_manifest_file"], replay=_replay_fallback))
+register(Unit(P, "CODEC-KEYS/create_manifest_list_file-entries", _cpw.h_manifest_list_entries, functions=["file_manager:FileManager.create_manifest_list_file"], replay=_replay_fallback))
